@@ -123,6 +123,13 @@ type World struct {
 	// creates the target (e.g. Redefine filters supplied as defaults).
 	TargetDefaults []argmapper.Arg
 	BodyHook       func(fs *FuncSpec)   // optional: called at the start of every body (outside the lock)
+	// LastOpts is the option slice (with its spare capacity) the latest
+	// Realize / RealizeViaList handed to NewFunc: the caller's own slice, whose
+	// spare capacity the caller may go on using.
+	LastOpts []argmapper.Arg
+	// FailWith (optional) makes the error value a failing body returns, in
+	// place of a *FailErr.
+	FailWith func(fs *FuncSpec, exec int) error
 	OpTagOf        func() (gid, op int) // optional: goroutine/op attribution
 }
 
@@ -335,6 +342,9 @@ func (w *World) enter(fs *FuncSpec, got []reflect.Value) (outs []reflect.Value, 
 	}
 	if fs.Fail || (fs.FailFirst && exec == 1) {
 		err = &FailErr{Func: fs.ID, Exec: exec}
+		if w.FailWith != nil {
+			err = w.FailWith(fs, exec)
+		}
 		ev.Err = err
 		ev.ErrS = err.Error()
 	}
@@ -362,6 +372,7 @@ func (w *World) Realize(fs *FuncSpec, defaults ...argmapper.Arg) (*argmapper.Fun
 		return nil, err
 	}
 	w.mu.Lock()
+	w.LastOpts = opts
 	w.Funcs[fs.ID] = f
 	w.Specs[fs.ID] = fs
 	w.mu.Unlock()
@@ -995,6 +1006,7 @@ func (w *World) RealizeViaList(fs *FuncSpec, defaults ...argmapper.Arg) (*argmap
 		return nil, err
 	}
 	w.mu.Lock()
+	w.LastOpts = opts
 	w.Funcs[fs.ID] = fl[0]
 	w.Specs[fs.ID] = fs
 	w.mu.Unlock()
